@@ -476,6 +476,16 @@ func ruleE1Cow(c *Ctx) []Ob {
 			}
 		}
 	}
+	// ... nor through the atomic API: the lock-free reader only loads
+	for _, b := range get.Blocks {
+		for _, ins := range b.Instrs {
+			if call, ok := ins.(*ssa.Call); ok {
+				if f := call.Call.StaticCallee(); f != nil && strings.HasPrefix(fnPkgPath(f), "sync/atomic") && f.Name() != "Load" && !strings.HasPrefix(f.Name(), "Load") {
+					s.bad("Get:store", c.InstrPos(call), "the lock-free reader updates shared state through atomic."+f.Name()+": state made of more than one word (a cached key and its value) cannot be updated or read as a unit this way, so a reader can pair one goroutine's key with another's value")
+				}
+			}
+		}
+	}
 	s.ok("Get:read-only", c.Pos(get.Pos()), "Get performs no store")
 	// sds.Set only after a descriptor build (or a transaction function around it) returned err == nil
 	builders := map[*ssa.Function]bool{}
